@@ -631,7 +631,7 @@ def fault_scenarios(tier):
     out = []
     quick = tier == "quick"
     for dev, op in (("motor", "set"), ("det", "trigger"), ("det", "read"), ("det", "stage"), ("det", "unstage")):
-        for mode in ("raise", "fail_now", "fail_later"):
+        for mode in ("raise", "fail_now", "fail_later", "none"):
             if mode != "raise" and op not in ("set", "trigger"):
                 continue
             base = base_scenario("move", faults={dev: {op: mode}}, delay={dev: 1.0} if mode == "fail_later" else None)
@@ -648,6 +648,7 @@ def fault_scenarios(tier):
                                            ["resume"] * 3, f"suspend@{p}"))
     # flyers: kickoff / complete / collect that raise or report failure, in the plan and in the engine's backstop collection
     for prog, op, mode in (("fly", "kickoff", "raise"), ("fly", "kickoff", "fail_now"), ("fly", "complete", "raise"), ("fly", "complete", "fail_later"),
+                           ("fly", "kickoff", "none"), ("fly_left", "kickoff", "none"), ("fly_fin", "kickoff", "none"),
                            ("fly", "collect", "raise"), ("fly_left", "collect", "raise"), ("fly_fin", "complete", "raise"), ("fly_fin", "collect", "raise"),
                            ("fly_twice", "collect", "raise"), ("fly_multi", "collect", "raise")):
         base = base_scenario(prog, faults={"fly1": {op: mode}}, delay={"fly1": 1.0} if mode == "fail_later" else None)
@@ -1223,10 +1224,10 @@ MC_JOBS = {
               # seeded random programs over the whole vocabulary, one request of any kind, every caller decision
               ("rp0", dict(max_req=1)), ("rp5", dict(max_req=1)),
               # flyers: collect inside the plan, the engine's backstop collection (one more park inside the finally block), two runs
-              ("fly_left", dict(max_req=1, flyers=["fly1"])), ("fly", dict(max_req=1, flyers=["fly1"], max_faults=1, fault_kinds=["raise"])),
+              ("fly_left", dict(max_req=1, flyers=["fly1"])), ("fly", dict(max_req=1, flyers=["fly1"], max_faults=1, fault_kinds=["raise", "nostatus"])),
               ("declare", dict(max_req=1))],
     "thorough": [("simple", dict(max_req=2)), ("fin", dict(max_req=2)), ("two", dict(max_req=2, req_kinds=["pause", "suspend", "abort", "defer"])),
-                 ("move", dict(max_req=1, max_faults=1, fault_kinds=["raise", "fail", "later"])),
+                 ("move", dict(max_req=1, max_faults=1, fault_kinds=["raise", "fail", "later", "nostatus"])),
                  ("mon", dict(max_req=1, max_updates=2)), ("multi", dict(max_req=1)), ("defer", dict(max_req=2, req_kinds=["defer", "pause", "abort"])),
                  ("norew", dict(max_req=2, req_kinds=["pause", "suspend"])), ("err", dict(max_req=1)), ("openonly", dict(max_req=2)),
                  ("aopen", dict(max_req=2, async_devs=["amotor", "apdet"])), ("amove", dict(max_req=1, async_devs=["amotor", "apdet"])),
@@ -1234,7 +1235,7 @@ MC_JOBS = {
                  ("simple", dict(max_req=1, req_kinds=["pause", "abort"], suspenders=["s1"], max_sus_ops=3)),
                  ("two", dict(max_req=0, suspenders=["s1", "s2"], max_sus_ops=3))]
                 + [(f"rp{i}", dict(max_req=1)) for i in range(10)] + [("rp3", dict(max_req=2, req_kinds=["pause", "suspend", "abort"]))]
-                + [("fly_left", dict(max_req=2, flyers=["fly1"])), ("fly", dict(max_req=1, flyers=["fly1"], max_faults=1, fault_kinds=["raise", "fail", "later"])),
+                + [("fly_left", dict(max_req=2, flyers=["fly1"])), ("fly", dict(max_req=1, flyers=["fly1"], max_faults=1, fault_kinds=["raise", "fail", "later", "nostatus"])),
                    ("fly_fin", dict(max_req=2, req_kinds=["pause", "abort", "stop", "halt"], flyers=["fly1"])),
                    ("fly_twice", dict(max_req=1, flyers=["fly1"], max_faults=1, fault_kinds=["raise"])),
                    ("fly_multi", dict(max_req=1, flyers=["fly1", "fly2"], max_updates=1)), ("fly_prep", dict(max_req=1, flyers=["fly1"])),
@@ -1273,7 +1274,7 @@ def sig_suffix(trace):
         # only sees runs that are still open when the engine exits)
         flying, plancloses = set(), False
         for e in trace["events"]:
-            if e[0] == "dev" and e[2] == "kickoff" and e[3] == "":
+            if e[0] == "dev" and e[2] == "kickoff" and e[3] in ("", "nostatus"):
                 flying.add(e[1])
             elif e[0] == "dev" and e[2] == "collect":
                 flying.discard(e[1])
